@@ -285,7 +285,7 @@ def run(chk):
                         names_for[CONFIGS.index((sels, owns))])
     # ---- model-free forced interleavings as well (they include a thread that probes / calls / leaves twice)
     fstats = {"schedules": 0, "steps": 0, "disagreements": 0, "stuck": 0}
-    free_search(chk, fstats, 18 if chk.tier == "quick" else 300)
+    free_search(chk, fstats, 18 if chk.tier == "quick" else 120)
     chk.cov["correspondence"]["model_free_schedules"] = fstats
     if chk.tier == "thorough":
         r3 = drv.ask({"op": "sched", "owns": [[0], [1], [0, 2]], "fuel": 400})
